@@ -242,8 +242,16 @@ def replace_card(h, key, new):
 
 # ------------------------------------------------------------------ writing (cfitsio: ffcrim / ffppx / ffpky / ffuky)
 def quote_string(s):
-    """ffs2c: quotes doubled, padded to at least 8 characters, at most 68 characters of value are kept"""
-    return "'%-8s'" % s[:68].replace("'", "''")
+    """ffs2c: opening quote, then the characters of the value (at most 68) with every quote doubled while the output
+    stays within 69 columns, padded to at least 8 characters, closing quote if there is room for it"""
+    out = "'"; s = s[:68]
+    for ch in s:
+        if len(out) >= 69: break
+        out += ch
+        if ch == "'": out += "'"
+    while len(out) < 9: out += " "
+    if len(out) >= 70: return out[:69]
+    return out + "'"
 
 def key_card(key, valuestr, comment, is_string):
     """ffmkky: fixed-format card from a keyword name, a formatted value string and an optional comment"""
